@@ -34,8 +34,9 @@ inline void gen_gzip_hdr(Tape &t, refhdr::Gzip &g, int &nopt) {
 	if (t.coin()) { g.hcrc = true; nopt++; }
 }
 
-inline void build(Tape &t, Built &b, size_t cap = 150000, bool small_only = false) {
+inline void build(Tape &t, Built &b, size_t cap = 150000, bool small_only = false, int force_src = -1, int force_level = -1) {
 	int src = (int) t.pick<uint32_t>({0, 0, 1, 2, 0});
+	if (force_src >= 0) src = force_src;
 	std::vector<uint8_t> defl;
 	if (src == 0) {
 		dgen::Params p;
@@ -67,6 +68,7 @@ inline void build(Tape &t, Built &b, size_t cap = 150000, bool small_only = fals
 		} else {
 			igz::DefOpts o;
 			o.level = (int) t.range(0, 3);
+			if (force_level >= 0) o.level = force_level;
 			o.stateless = true;
 			o.lbuf_size = igz::lvl_buf_size(o.level, 3);
 			igz::Deflater d(o);
